@@ -487,11 +487,23 @@ def _order(r, p):
     else:
         r.fail("C15.order", main.key + ":aggregation", "aggregation does not iterate lReturn exactly once in order", main.loc())
     # printing happens per result inside the dispatch loops, stdout before stderr, in each of the three sites
+    # (inline `print(sOutputStd)` / `print(sOutputErr, file=sys.stderr)` pairs, or a module-level helper given both texts)
+    unpacks = [n for n in walk_function(fn) if isinstance(n, ast.Assign) and isinstance(n.targets[0], ast.Tuple) and any(norm(e) == "sOutputStd" for e in n.targets[0].elts)]
     prints = [n for n in walk_function(fn) if isinstance(n, ast.Call) and callee_text(n) == "print" and n.args and norm(n.args[0]) in ("sOutputStd", "sOutputErr")]
-    if len(prints) == 6:
+    helper_calls = []
+    for n in walk_function(fn):
+        if isinstance(n, ast.Call) and isinstance(n.func, ast.Name) and [norm(a) for a in n.args] == ["sOutputStd", "sOutputErr"]:
+            ent = p.resolve_expr(main.module, n.func)
+            if ent and ent[0] == "func":
+                g = ent[1]
+                ps = sorted([x for x in walk_function(g.node) if isinstance(x, ast.Call) and callee_text(x) == "print" and x.args], key=lambda x: x.lineno)
+                if len(ps) == 2 and len(g.params) == 2 and norm(ps[0].args[0]) == g.params[0] and norm(ps[1].args[0]) == g.params[1] and ps[0].lineno < ps[1].lineno and any(kw.arg == "file" and "stderr" in norm(kw.value) for kw in ps[1].keywords) and not any(kw.arg == "file" for kw in ps[0].keywords):
+                    helper_calls.append(n)
+    n_sites = len(prints) // 2 + len(helper_calls)
+    if len(unpacks) == 3 and len(prints) % 2 == 0 and n_sites == 3:
         r.ok("C15.order", main.key + ":printing", "each of the three dispatch sites prints stdout then stderr text per file")
     else:
-        r.fail("C15.order", main.key + ":printing", "expected 3 x (stdout, stderr) per-file print sites, found %d" % len(prints), main.loc())
+        r.fail("C15.order", main.key + ":printing", "expected the per-file stdout and stderr texts to be printed at each of the 3 dispatch sites, found %d inline print(s) and %d helper call(s) for %d result site(s)" % (len(prints), len(helper_calls), len(unpacks)), main.loc())
 
 
 def _channel(r, p):
